@@ -82,6 +82,61 @@ def key_encodings(rng):
     return out
 
 
+def login_joins(chk, java_hex):
+    """Through a login: whatever the session service answers (accepts, refuses with 403 or 500, a token that can refresh
+    itself), EVERY value the connection hands to join() is the hash of (server id, secret, key) - never anything else."""
+    import sim, proto, c10
+    from minecraft.networking.connection import Connection
+    from minecraft.exceptions import YggdrasilError
+    rng = chk.rng
+    secret = bytes(range(200, 216))
+    for sid in ('srv', '', 'e\u0301x', '\ufeffid'):
+        for mode in ('accept', 'refuse-403', 'refuse-403-then-accept', 'refuse-500'):
+            pv = rng.choice([47, 340, 757])
+            ids = proto.Ids(pv)
+            frames, cut = c10.build_server(ids, [('enc', sid, b'tokn')])
+            calls = []
+
+            class Token(object):
+                class profile(object):
+                    name = 'ProfileName'
+                    id_ = 'pid'
+                authenticated = True
+                access_token, client_token, username = 'acc', 'cli', 'u'
+
+                def join(self, server_id):
+                    calls.append(('join', server_id))
+                    n = sum(1 for c in calls if c[0] == 'join')
+                    if mode == 'refuse-500' or mode == 'refuse-403' or (mode == 'refuse-403-then-accept' and n == 1):
+                        raise YggdrasilError(status_code=500 if mode == 'refuse-500' else 403, yggdrasil_error='ForbiddenOperationException', yggdrasil_message='Invalid token')
+                    return True
+
+                def refresh(self):
+                    calls.append(('refresh',))
+                    return True
+
+                def validate(self):
+                    calls.append(('validate',))
+                    return True
+
+                def __bool__(self):
+                    return True
+            net = sim.Net([sim.Server([b''.join(frames)], end='idle')], urandom=secret).install()
+            try:
+                conn = Connection('localhost', 25565, auth_token=Token(), allowed_versions={pv}, handle_exception=lambda e, i: None)
+                conn.connect()
+                net.run_threads(conn)
+            finally:
+                net.uninstall()
+            pub = c10.rsa_key()[0]
+            want = java_hex(hashlib.sha1(sid.encode('utf-8') + secret + pub).digest())
+            joins = [c[1] for c in calls if c[0] == 'join']
+            chk.count('login-join', [sid, mode, pv], True)
+            if not joins or any(j != want for j in joins):
+                chk.violation('login-join', 'login-join:%r:%s' % (sid, mode), {'case': {'server_id': sid, 'session_service': mode, 'proto': pv}, 'expected': want, 'observed': calls},
+                              'login to server id %r with a session service that %s: join() was called with %s; the hash is %s' % (sid, mode, joins, want))
+
+
 def run(chk):
     common.standard_proof(chk, 'Properties/C17.v')
     from minecraft.networking import encryption
@@ -148,6 +203,7 @@ def run(chk):
         if got != oracle:
             chk.violation('hash-from-wire', 'wire:%r' % (sid,), {'case': {'server_id': sid, 'server_id_utf8': sid.encode('utf-8').hex(), 'secret': secret.hex(), 'key': key.hex()[:200]}, 'expected': oracle, 'observed': got},
                           'encryption request with server id %r decoded by the real packet class: the hash made from the decoded fields is %s; the hash of what the server sent is %s' % (sid, got, oracle))
+    login_joins(chk, java_hex)
     chk.sample('hash', {'server_id': 'Notch', 'hash': encryption.generate_verification_hash('Notch', b'', b'')}, k=1)
     # arbitrary digests through the formatting function
     digs = [bytes([0] * 20), bytes([0xff] * 20), bytes([0x80] + [0] * 19), bytes([0x7f] + [0xff] * 19), bytes([0] * 19 + [1]),
